@@ -340,9 +340,19 @@ func (f *flow) Start(ctx context.Context) {
 											f.retry.Step()
 											goto await
 										}
+										// out of retries: the token ends here
+										f.tracer.Send(TerminationTrace{
+											FlowId: f.Id(),
+											Source: source,
+										})
 										return
 									case SkipMode:
 									case ExitMode:
+										// the token ends here
+										f.tracer.Send(TerminationTrace{
+											FlowId: f.Id(),
+											Source: source,
+										})
 										return
 									}
 								case <-ctx.Done():
